@@ -23,8 +23,9 @@ EXPLANATION = (
     "order equals the 'segregating' order in both parsers. (5) R-ALG on the statistics: Watterson's theta, pi, theta_L, "
     "Tajima's D constants and Weir-Cockerham Fst (the code's a, d are compared, for r = 2 and 3 populations of unequal "
     "size, with the published equations 2-4 after solving b = 0 for the heterozygosity); S() restores the mask."
-    " (6) both data-dict parsers by role flow: the columns of the split line and the genotype counts that reach each position of what is stored under 'segregating', 'calls' and 'outgroup_allele'; the VCF line filters as skip predicates evaluated over allele / FILTER worlds before anything of the line is stored; the stored outgroup allele is assigned on every path of its own iteration; the list zipped with the sample columns has one entry per header sample column.")
-TECHNIQUE = "finite-domain abstract execution of the polarisation loop + role flow through the parsers + skip predicates over finite worlds + argument/slot correspondence + exact rational algebra (vector-valued for Fst) + loop-shape rules"
+    " (6) both data-dict parsers by role flow: the columns of the split line and the genotype counts that reach each position of what is stored under 'segregating', 'calls' and 'outgroup_allele'; the VCF line filters as skip predicates evaluated over allele / FILTER worlds before anything of the line is stored; the stored outgroup allele is assigned on every path of its own iteration; the list zipped with the sample columns has one entry per header sample column."
+    " (7) R-DOM chunker: fragment_data_dict is executed by the checker's own interpreter (sa.miniexec over the syntax tree; dadi is not imported) on a finite domain of 71 data dictionaries (chromosome names with _ and ., positions on both sides of every chunk boundary for chunk sizes 1/3/10, sites with and without additional info, several insertion orders); the result must be a partition of the keys with unchanged records into pairwise disjoint per-chromosome position intervals shorter than chunk_size; where the statement templates do not recognise the code the executed domain decides (bounded argument).")
+TECHNIQUE = "finite-domain abstract execution of the polarisation loop and of the chunker (checker-owned interpreter over the AST) + role flow through the parsers + skip predicates over finite worlds + argument/slot correspondence + exact rational algebra (vector-valued for Fst) + loop-shape rules"
 DECLINED = ["VCF tokenisation details (genotype separators, ploidy, FORMAT fields)", "equality of a spectrum with an independent count of a genotype matrix (numerical)",
             "distributional properties of bootstraps / subsamples"]
 
